@@ -1009,3 +1009,132 @@ def register(gen, T):
                                for kw, st, cf, rq, dn, er in rows) + "\n")
         out.append(T.footer("TypeMods"))
         return "".join(out)
+
+    # ------------------------------------------------------------------------------------------------------------------
+    @gen("RetScope")
+    def ret_scope():
+        """where `return` statements get "the return type of the current function" from (Model/RetScope.lean)"""
+        import os
+        scopes = T.src("typer/src/typer/scopes.rs")
+        functions = T.src("typer/src/typer/functions.rs")
+
+        def same(body, pinned):
+            return nows(body).rstrip(';') == nows(pinned).rstrip(';')
+
+        def fn_spans(text):
+            spans = []
+            for m in re.finditer(r'\bfn\s+(\w+)', text):
+                i = m.end()
+                while i < len(text):
+                    c = text[i]
+                    if c in '([':
+                        i = matching(text, i) + 1
+                        continue
+                    if c == '{':
+                        spans.append((m.group(1), i, matching(text, i)))
+                        break
+                    if c == ';':
+                        break
+                    i += 1
+            return spans
+
+        def enclosing(spans, pos):
+            best = None
+            for name, a, b in spans:
+                if a <= pos <= b and (best is None or a > best[1]):
+                    best = (name, a, b)
+            return best[0] if best else "<top level>"
+
+        typer_dir = os.path.join(T.REPO, "typer", "src")
+        files = []
+        for root, _, names in os.walk(typer_dir):
+            for n in sorted(names):
+                if n.endswith(".rs"):
+                    files.append(os.path.relpath(os.path.join(root, n), T.REPO))
+        files.sort()
+        writers, set_callers, get_callers, none_inits, other_inits = [], [], [], 0, []
+        for rel in files:
+            text = T.src(rel)
+            spans = fn_spans(text)
+            base = os.path.basename(rel)
+            for m in re.finditer(r'function_return_type\s*=[^=]', text):
+                writers.append(enclosing(spans, m.start()))
+            for m in re.finditer(r'\.\s*set_function_return_type\s*\(', text):
+                set_callers.append(base + ":" + enclosing(spans, m.start()))
+            for m in re.finditer(r'\.\s*get_current_return_type\s*\(', text):
+                get_callers.append(base + ":" + enclosing(spans, m.start()))
+            for m in re.finditer(r'function_return_type\s*:\s*([^,}]*)', text):
+                v = m.group(1).strip()
+                if v == "None":
+                    none_inits += 1
+                elif not v.startswith("Option<"):
+                    other_inits.append(v)
+        if other_inits:
+            raise ExtractError(f"ScopeData.function_return_type is initialised with {other_inits}")
+        writers = sorted(set(writers))
+
+        m = re.search(r'\bpub\s+struct\s+Context\s*\{', scopes)
+        if not m:
+            raise ExtractError("struct Context not found")
+        i = m.end() - 1
+        fields = []
+        # one field per line (generic arguments contain commas)
+        for line in scopes[i + 1:matching(scopes, i)].splitlines():
+            line = re.sub(r'#\[[^\]]*\]', '', line).strip()
+            if line:
+                fm = re.match(r'(?:pub(?:\([^)]*\))?\s+)?(\w+)\s*:[^:]', line)
+                if not fm:
+                    raise ExtractError(f"Context: field line {line!r}")
+                fields.append(fm.group(1))
+
+        get_ok = same(impl_fn_body(scopes, r'Context\b', "get_current_return_type"),
+                      'match self.search_scopes(|s| s.function_return_type) { Some(ret) => ret, None => panic!("Not inside function"), }')
+        search_ok = same(fn_body(scopes, "search_scopes"),
+                         'let mut scope_index = self.current_scope; loop { if let Some(s) = search(&self.scopes[scope_index]) { return Some(s); } '
+                         'scope_index = self.scopes[scope_index].parent_scope; if scope_index == usize::MAX { break; } } None')
+        revisit_ok = (same(fn_body(scopes, "revisit_function"), 'self.revisit_scope(self.function_to_scope[&id])')
+                      and same(fn_body(scopes, "revisit_scope"),
+                               'assert_eq!(self.scopes[scope].parent_scope, self.current_scope); self.current_scope = scope'))
+        set_ok = same(fn_body(scopes, "set_function_return_type"),
+                      'assert_eq!(self.scopes[self.current_scope].function_return_type, None); '
+                      'self.scopes[self.current_scope].function_return_type = Some(return_type);')
+        est = nows(fn_body(scopes, "ensure_struct_template"))
+        seq = nows('let current_scope = self.current_scope; self.current_scope = struct_template_data.scope; '
+                   'let sid_res = self.instantiate_struct_template(id, ast, template_args, error_loc); self.current_scope = current_scope;')
+        bft = nows(fn_body(scopes, "build_function_template_body"))
+        pfb = nows(fn_body(functions, "parse_function_body"))
+        restores = (seq in est and est.count("self.current_scope=") == 2
+                    and nows('let caller_scope_position = self.current_scope; self.current_scope = parent_scope_id;') in bft
+                    and nows('assert_eq!(self.current_scope, parent_scope_id); self.current_scope = caller_scope_position;') in bft
+                    and bft.count("self.current_scope=") == 2 and bft.count("parse_function_body(") == 1
+                    and pfb.startswith("context.revisit_function(id);") and pfb.count("context.pop_scope_with_locals()") == 1
+                    and "current_scope" not in pfb)
+
+        def b(x):
+            return "true" if x else "false"
+
+        def strs(xs):
+            return T.lean_list(lean_str(x) for x in xs)
+
+        out = [T.header("RetScope", ["typer/src/typer/scopes.rs", "typer/src/typer/functions.rs", "typer/src/**/*.rs"])]
+        out.append("/-- `Context::get_current_return_type` is `search_scopes(|s| s.function_return_type)` (panic if none) -/\n"
+                   f"def returnTypeComesFromTheScopeChain : Bool := {b(get_ok)}\n\n")
+        out.append("/-- `search_scopes` starts at `current_scope` and follows `parent_scope` to the root, first hit wins -/\n"
+                   f"def searchScopesWalksParents : Bool := {b(search_ok)}\n\n")
+        out.append("/-- `revisit_function(id)` is `revisit_scope(function_to_scope[&id])`; `revisit_scope` sets `current_scope` only -/\n"
+                   f"def revisitFunctionOnlyReentersScope : Bool := {b(revisit_ok)}\n\n")
+        out.append("/-- `set_function_return_type` writes the field of the current scope (asserting it was `None`) -/\n"
+                   f"def setFunctionReturnTypeAsPinned : Bool := {b(set_ok)}\n\n")
+        out.append("/-- functions of typer/src that assign `function_return_type` -/\n"
+                   f"def functionReturnTypeWriters : List String := {strs(writers)}\n\n")
+        out.append("/-- struct literals that initialise `function_return_type: None` (root scope, `make_scope`) -/\n"
+                   f"def functionReturnTypeInitialisedNone : Nat := {none_inits}\n\n")
+        out.append(f"/-- call sites of `set_function_return_type` -/\ndef setFunctionReturnTypeCallers : List String := {strs(set_callers)}\n\n")
+        out.append(f"/-- call sites of `get_current_return_type` -/\ndef getCurrentReturnTypeCallers : List String := {strs(get_callers)}\n\n")
+        out.append(f"/-- fields of `struct Context` in declaration order -/\ndef contextFields : List String := {strs(fields)}\n\n")
+        out.append("/-- `ensure_struct_template` saves `current_scope`, jumps to the template's scope and restores it after\n"
+                   "    `instantiate_struct_template`; `build_function_template_body` does the same around its one `parse_function_body`;\n"
+                   "    `parse_function_body` starts with `revisit_function(id)`, pops once and never touches `current_scope` itself -/\n"
+                   f"def instantiationRestoresCurrentScope : Bool := {b(restores)}\n")
+        out.append(T.footer("RetScope"))
+        return "".join(out)
